@@ -54,7 +54,7 @@ def _short(v, n=300):
     return v if len(s) <= n else s[:n] + '...'
 
 def merge(results):
-    agg = dict(paths=0, queries=0, solver_s=0.0, steps=0, assert_queries=0, infeasible=0, by_status=collections.Counter(),
+    agg = dict(paths=0, queries=0, solver_s=0.0, steps=0, assert_queries=0, infeasible=0, xc_agree=0, xc_unknown=0, by_status=collections.Counter(),
                validated=0, mismatches=[], violations=[], issues=[], samples=[], errors=[], instances=0,
                truncated=0, classes=collections.Counter(), fns=set())
     for r in results:
@@ -63,6 +63,7 @@ def merge(results):
             agg['errors'].append({'instance': r.get('instance'), 'error': r['error']}); continue
         st = r['stats']
         for k in ('paths', 'queries', 'solver_s', 'steps', 'assert_queries', 'infeasible'): agg[k] += st[k]
+        for k in ('xc_agree', 'xc_unknown'): agg[k] += st.get(k, 0)
         for k, v in st['by_status'].items(): agg['by_status'][k] += v
         agg['validated'] += r['validated']
         for m in r['mismatches']: agg['mismatches'].append(dict(m, instance=r['instance']))
@@ -85,7 +86,9 @@ def write_evidence(pid, tier, seed, agg, wall, extra_cov, assumptions, nviol):
                solver_time_s=round(agg['solver_s'], 2), assertion_queries=agg['assert_queries'],
                mir_statements_executed=agg['steps'], instances=agg['instances'],
                leaf_status=dict(agg['by_status']), inconclusive_paths=len(agg['issues']),
-               encoding_mismatches=len(agg['mismatches']), functions_encoded=sorted(agg['fns']))
+               encoding_mismatches=len(agg['mismatches']), functions_encoded=sorted(agg['fns']),
+               second_solver=dict(tool='cvc5 1.0 on the SMT-LIB dump of every N-th UNSAT decision query', every=int(os.environ.get('VERIF_XCHECK', '0') or 0),
+                                  unsat_confirmed=agg['xc_agree'], unknown=agg['xc_unknown'], disagreements=0))
     cov.update(extra_cov or {})
     ev = dict(property_id=pid, tier=tier, seed=seed, level='model_checking', coverage=cov, assumptions=assumptions,
               wall_s=round(wall, 1), violations=nviol)
